@@ -558,3 +558,17 @@ def run(L, tier):
     L.stage(r2_indication, L, repo)
     L.stage(r3, L, repo)
     L.stage(r4_restart, L, repo)
+    from pyutil import instance_state
+    L.stage(_r6_instance, L, repo)
+
+
+def _r6_instance(L, repo):
+    """R6: each clock generator controls its own thread: the stop event / thread handle / link list are per instance"""
+    from pyutil import instance_state
+    try:
+        instance_state(L, repo, "C09.R6", "clck_gen", "CLCKGen", "each clock generator has its own control objects")
+    except Exception as e:
+        from report import AnalysisError
+        if isinstance(e, AnalysisError) and "below floor" in str(e):
+            return
+        raise
